@@ -21,6 +21,7 @@
 EXTENDS Integers, Sequences, FiniteSets, TLC, Json
 
 CONSTANTS Scen,            \* "response" | "handshake"
+          MaxChunks,       \* content: up to this many packets
           Gen,
           EmptyIsFlush     \* TRUE: `if not pkt: break` -- an empty packet ends a list (defect model)
 
@@ -73,7 +74,7 @@ Init ==
             /\ bytes = P!Encode(<<P!Data(WEL), P!Data(VER), P!Flush>> \o DataItems(hdr) \o <<P!Flush>>)
        ELSE /\ hdr \in HdrLists
             /\ IF In(E, hdr) THEN chunks = <<>> /\ fin = <<>>
-               ELSE chunks \in P!SeqsUpTo(Chunks, 3) /\ fin \in FinLists
+               ELSE chunks \in P!SeqsUpTo(Chunks, MaxChunks) /\ fin \in FinLists
             /\ bytes = P!Encode(DataItems(hdr) \o <<P!Flush>> \o
                                 (IF In(E, hdr) THEN <<>> ELSE DataItems(chunks) \o <<P!Flush>> \o DataItems(fin) \o <<P!Flush>>))
     /\ idx = 1 /\ acc = <<>> /\ seen = <<>> /\ result = [st |-> "none", content |-> <<>>, caps |-> {}]
